@@ -121,6 +121,10 @@ inline CssResult run_css(Group &G, bool cyclic, size_t n, const std::vector<unsi
 	coin_script().clear();
 	for (unsigned long w : script) script_ulong(w);
 	coin_log().clear(); coin_logging() = true;
+	if (gen().below(3) == 0) {      // a used secret object: TMCG_CreateStackSecret must start from scratch
+		VTMF_CardSecret junk; mpz_set_ui(junk.r, 4711);
+		size_t k = 1 + gen().below(n + 2); for (size_t i = 0; i < k; i++) R.ss.push(i % 3, junk);
+	}
 	try { R.offset = G.tmcg->TMCG_CreateStackSecret(R.ss, cyclic, n, G.vtmf); }
 	catch (std::invalid_argument &) { R.threw = true; }
 	coin_logging() = false;
